@@ -4,6 +4,12 @@
 #include <type_traits>
 using namespace covfie;
 
+// oracle multiplication modulo 2^w without integral-promotion overflow
+template <class T> static T mulw(T a, T b)
+{
+    return static_cast<T>(static_cast<unsigned long>(a) * static_cast<unsigned long>(b));
+}
+
 template <class T> static T nd()
 {
     if constexpr (sizeof(T) == 1) return vf_nondet_u8();
@@ -38,10 +44,10 @@ template <class T> static void ipow_rec_h()
     vf_assert(utility::ipow<T>(b, 1) == b, 2);
     vf_assume(e <= (T(~T(0)) >> 1));   // 2e, 2e+1 representable
     T lhs_even = utility::ipow<T>(b, T(2 * e));
-    T rhs_even = utility::ipow<T>(T(b * b), e);
+    T rhs_even = utility::ipow<T>(mulw<T>(b, b), e);
     vf_assert(lhs_even == rhs_even, 3);
     T lhs_odd = utility::ipow<T>(b, T(2 * e + 1));
-    T rhs_odd = T(b * utility::ipow<T>(T(b * b), e));
+    T rhs_odd = mulw<T>(b, utility::ipow<T>(mulw<T>(b, b), e));
     vf_assert(lhs_odd == rhs_odd, 4);
     vf_observe_u64(lhs_even);
     vf_observe_u64(lhs_odd);
@@ -56,8 +62,8 @@ template <class T> static void ipow_bin_h()
     T r = utility::ipow<T>(b, e);
     T o = 1, sq = b;
     for (unsigned j = 0; j < w; ++j) {
-        if ((e >> j) & 1) o = T(o * sq);
-        sq = T(sq * sq);
+        if ((e >> j) & 1) o = mulw<T>(o, sq);
+        sq = mulw<T>(sq, sq);
     }
     vf_assert(r == o, 1);
     vf_observe_u64(r);
@@ -69,7 +75,7 @@ template <class T, unsigned long E> static void ipow_exact_h()
     T b = nd<T>();
     T r = utility::ipow<T>(b, T(E));
     T o = 1;
-    for (unsigned long k = 0; k < E; ++k) o = T(o * b);
+    for (unsigned long k = 0; k < E; ++k) o = mulw<T>(o, b);
     vf_assert(r == o, 1);
     vf_observe_u64(r);
 }
@@ -81,7 +87,7 @@ template <class T, unsigned long EMAX> static void ipow_all_h()
     vf_assume(e <= EMAX);
     T r = utility::ipow<T>(b, e);
     T o = 1;
-    for (T k = 0; k < e; ++k) o = T(o * b);
+    for (T k = 0; k < e; ++k) o = mulw<T>(o, b);
     vf_assert(r == o, 1);
     vf_observe_u64(r);
 }
